@@ -38,6 +38,14 @@ MkInput(g, j) ==
               IF p \in g.mf THEN NaN
               ELSE R(2000 + 10000 * j + g.bump + Code(g.ts[p[1]], g.ls[p[2]], g.ss[p[3]]) + RepeatMark(g.ts, g.ls, g.ss, p))]]
 
+\* the same with SMALL values (scores are computed on them in exact arithmetic: TLC integers are 32-bit)
+MkInputSmall(g, j) ==
+  [MkInput(g, j) EXCEPT
+     !.obs  = [p \in Positions(g.ts, g.ls, g.ss) |-> IF ~g.hasObs \/ p \in g.mo THEN NaN
+                 ELSE LET c == Code(g.ts[p[1]], g.ls[p[2]], g.ss[p[3]]) IN R((3 * (c \div 100) + 5 * ((c \div 10) % 10) + 2 * (c % 10)) % 6)],
+     !.fcst = [p \in Positions(g.ts, g.ls, g.ss) |-> IF p \in g.mf THEN NaN
+                 ELSE LET c == Code(g.ts[p[1]], g.ls[p[2]], g.ss[p[3]]) IN R(((2 * (c \div 100) + 3 * ((c \div 10) % 10) + 5 * (c % 10) + 2 * j) % 7) - 1)]]
+
 \* climatology forecast: "lin" keeps coordinates visible after subtraction, "small" has zeros for -C
 MkClim(g) ==
   [times |-> g.ts, leads |-> g.ls, locs |-> g.ss,
@@ -54,6 +62,8 @@ MkClim(g) ==
 NoClimGen == [on |-> FALSE, ts |-> <<TimePool[1]>>, ls |-> <<LeadPool[1]>>, ss |-> <<LocPool[1]>>, hasObs |-> FALSE,
               mo |-> {}, mf |-> {}, mode |-> "lin", type |-> "subtract"]
 
+DsOfSmall(g) == [inputs |-> [j \in DOMAIN g.inp |-> MkInputSmall(g.inp[j], j)],
+                 hasClim |-> g.clim.on, clim |-> MkClim(g.clim), climType |-> g.clim.type]
 DsOf(g) == [inputs |-> [j \in DOMAIN g.inp |-> MkInput(g.inp[j], j)],
             hasClim |-> g.clim.on, clim |-> MkClim(g.clim), climType |-> g.clim.type]
 
@@ -199,6 +209,13 @@ UC18Mix(u) == {[inp |-> <<In212(TRUE, a, b), In212(h, {}, d)>>, clim |-> cl, opt
                     cl \in {NoClimGen, [on |-> TRUE, ts |-> T2, ls |-> L1, ss |-> S2, hasObs |-> FALSE, mo |-> {}, mf |-> {<<2, 1, 1>>},
                                         mode |-> "lin", type |-> "subtract"]},
                     o \in {NoOptions, WithOpt(NoOptions, "obsrange", <<R(1112), R(1211)>>)}}
+\* C04 / C12: small-valued datasets on a 2x2x2 grid with missing single cells, whole slices and whole inputs
+P222 == Positions(Ta, La, Sa)
+In222(mo, mf) == [ts |-> Ta, ls |-> La, ss |-> Sa, hasObs |-> TRUE, mo |-> mo, mf |-> mf, bump |-> 0]
+MissMenu == {{}, {<<1, 1, 1>>}, {<<1, 1, 1>>, <<2, 2, 2>>}, {p \in P222 : p[1] = 1}, {p \in P222 : p[3] = 2}, P222}
+UC04(u) == {[inp |-> <<In222(a, b), In222(c, d)>>, clim |-> NoClimGen, opt |-> NoOptions]
+              : a \in MissMenu, b \in MissMenu, c \in {{}, {<<2, 1, 2>>}}, d \in {{}, {<<1, 2, 1>>}, P222}}
+UC04Quick(u) == {x \in UC04(0) : x.inp[2].mo = {} \/ x.inp[1].mf = {}}
 Universe(u) ==
   CASE Family = "C01Full"   -> UC01Full(0)
     [] Family = "C01Quick"  -> UC01Quick(0)
@@ -210,6 +227,8 @@ Universe(u) ==
     [] Family = "C18One"    -> {[inp |-> <<In212(TRUE, {<<1, 1, 1>>}, {<<1, 1, 2>>}), In212(TRUE, {<<2, 1, 1>>}, {})>>, clim |-> NoClimGen, opt |-> NoOptions]}
     [] Family = "C18Full"   -> UC01Full(0)
     [] Family = "C18Mix"    -> UC18Mix(0)
+    [] Family = "C04"       -> UC04(0)
+    [] Family = "C04Quick"  -> UC04Quick(0)
     [] Family = "C02Order"  -> UC02Order(0)
     [] Family = "C02Sel"    -> UC02Sel(0)
     [] Family = "C02Repeat" -> UC02Repeat(0)
